@@ -40,6 +40,23 @@ pub fn prime_data(rng: &mut Rng, n: usize) -> Vec<f64> {
     v
 }
 
+/// dyadic values (exact sums) mixed with the values a "sparse" or "positive-only" shortcut mishandles: negatives, `-0.0`, zeros, and —
+/// when `specials` — NaN and the two infinities (their propagation through a sum does not depend on the order of the terms)
+pub fn signed_data(rng: &mut Rng, n: usize, specials: bool) -> Vec<f64> {
+    (0..n).map(|_| {
+        let k = rng.below(4097) as i64 - 2048;
+        match rng.below(16) {
+            0 | 1 => 0.0,
+            2 => -0.0,
+            3 if specials => f64::NAN,
+            4 if specials => f64::INFINITY,
+            5 if specials => f64::NEG_INFINITY,
+            6 | 7 | 8 => -((k.abs() + 1) as f64) / 4.0,
+            _ => k as f64 / 4.0,
+        }
+    }).collect()
+}
+
 /// random dyadic values (multiples of 1/4, |v| <= 512): sums, halves and small products are exact in f64
 pub fn dyadic_data(rng: &mut Rng, n: usize) -> Vec<f64> {
     (0..n).map(|_| {
